@@ -200,6 +200,16 @@ def _ConstRandom(value=0.5):
     return simrandom.Stream({'mode': 'constant'})
 
 
+def _restore_prng(pmodel, old):
+    if old is None:
+        try:
+            del pmodel.random
+        except AttributeError:
+            pass
+    else:
+        pmodel.random = old
+
+
 def _reseed_global_prng():
     """Should the code under test draw its random keys from somewhere else than penman.model.random (where the
     constant stream sits), it draws from the interpreter-wide PRNG: tool run and library reference then start
@@ -241,6 +251,7 @@ def run_tool(spec, opts, stdin, texts, trace, k, res, tag):
             else [f'/sim/in{i}.penman' for i in range(len(texts))]
     import penman.model as pmodel
     rnd = _ConstRandom() if uses_random(opts) else None
+    old_random = getattr(pmodel, 'random', None)
     if rnd:
         pmodel.random = rnd
         _reseed_global_prng()
@@ -251,8 +262,7 @@ def run_tool(spec, opts, stdin, texts, trace, k, res, tag):
                         stdin_slow=(trace.get('mixseed', 0) % 3) if stdin else 0)
     finally:
         if rnd:
-            import random as _random
-            pmodel.random = _random
+            _restore_prng(pmodel, old_random)
             res.hit('probe.random_key_constant_stream')
     res.event(tag, argv, r.exit, digest.sha(r.stdout), digest.canon_exc(r.exc) if r.exc else None)
     return argv, r
@@ -261,6 +271,7 @@ def run_tool(spec, opts, stdin, texts, trace, k, res, tag):
 def ref_run(texts, model, opts):
     import penman.model as pmodel
     rnd = _ConstRandom() if uses_random(opts) else None
+    old_random = getattr(pmodel, 'random', None)
     if rnd:
         pmodel.random = rnd
         _reseed_global_prng()
@@ -270,8 +281,7 @@ def ref_run(texts, model, opts):
         return None, e
     finally:
         if rnd:
-            import random as _random
-            pmodel.random = _random
+            _restore_prng(pmodel, old_random)
 
 
 def decode_all(text, model):
